@@ -32,6 +32,30 @@ META.update({
     "C18": {"rule": MIDI_RULE + "; workload: 16 channels x 128 controllers x 128 values (explicit + running status, listened + foreign channel), all 16384 pitch-bend values ascending/descending, scaling tables, and controllers interleaved with note traffic", "assumptions": COMMON + ["power-on defaults are read from a freshly constructed receiver at run time"]},
 })
 
+QUANT_RULE = ("allow/forbid/convert histories on the real quantizer with a shadow scale: directed convert-forbid-convert of the same input in every octave and pitch class, slow ramps, "
+              "sub-hysteresis noise around every chromatic boundary, jumps, random scale edits (incl. forbid-everything and note arguments > 11) and inputs in and around [0,10] V incl. NaN/inf; "
+              "distinct_nontrivial = distinct (octave, path {kept by window, outside window, cached note forbidden, no history}, pitch class, scale-size bucket) classes observed")
+GLIDE_RULE = ("set_time/process histories on the real processor: clean steps over the (fs,t) plane (both signs, offsets), dead-band sequences (drift chains, flapping, jumps, around the band edge) with the pole estimated from the outputs after every call, "
+              "and mixed piecewise-constant / noise inputs with set_time changes at arbitrary points incl. switches to <= 4/fs in mid-glide; distinct_nontrivial = distinct (decade of t*fs, changed-mid-glide?, specified region?) and (plane cell) classes observed")
+RIBBON_RULE = ("sample histories on real controllers for 10 sample rates (buffer capacities 2..3265) and random resistor triples: presses of length L-2..L+2, 10L, taps shorter than L separated by 1..3 out-of-range samples, glitches, slides and noisy presses, "
+               "edge polls strict (after every sample) and sparse; distinct_nontrivial = distinct (event, rate, previous-run-length bucket, poll mode) and influence-probe (rate, region, wrapped?, noisy?) classes observed")
+
+META.update({
+    "C07": {"rule": QUANT_RULE, "assumptions": COMMON + ["the shadow scale is maintained from the allow/forbid calls issued (note arguments > 11 act as 11; a forbid that would empty the scale keeps the last note of its argument) and compared with is_allowed() after every edit"]},
+    "C08": {"rule": "fresh real quantizer per conversion: all 4095 non-empty scales x {boundary grid of every half- and third-semitone point of 0..10 V +-{0,1,4,9,11,40} uV; special and out-of-range inputs incl. NaN/inf; a microvolt stride (quick: 997 uV seed-offset stride, thorough: every one of the 10,000,001 microvolt inputs)}; oracle = nearest allowed note in f64 with the one-semitone-below bucket rule and 10 uV tie band, plus monotonicity over rising inputs. distinct_nontrivial = distinct (scale, number of distinct notes reported) pairs",
+            "assumptions": COMMON + ["candidate notes 0..131 (octave 10 complete)", "NaN may be treated as either end of the range"]},
+    "C09": {"rule": QUANT_RULE, "assumptions": COMMON + ["outside the window the expected result is what a fresh instance of the real quantizer with the same scale reports (the history-free rule itself is judged by C08)", "inputs within 2 uV of a window edge may go either way"]},
+    "C19": {"rule": QUANT_RULE, "assumptions": COMMON + ["'two f32 ulps' is taken at the magnitude of the largest of |input|, |stairstep|, |fraction|", "chromatic fraction range widened by 10 uV (integer microvolt note grid)"]},
+    "C13": {"rule": GLIDE_RULE, "assumptions": COMMON + ["filter resolution res = 2*2^-23*M/(1-a) (M = largest |input| so far, a = pole of the time in effect), plus the decaying remainder of the previous setting's resolution after a set_time change", "for times below 100 samples the pole is only assumed to lie in [0, a(100/fs)]", "'settles' is decided as bounded progress: |e_n| <= |e_1|*a'^(n-1) + res with a' 2 % slower than the RC law", "the first sample of a hold is exempt from the monotone clause (it still carries the previous input)", "every history starts with a set_time call; requests within 1e-6 of the dead-band edge make the time in effect unknown until a far jump"]},
+    "C14": {"rule": GLIDE_RULE, "assumptions": COMMON + ["the pole is estimated over a window in which the error decays by about 30 % and stays > 1000 res; dead-band discrimination only where t <= 1 s and 100 <= t*fs <= 1e5", "t > 10 s is compared bit for bit with t = 10 s on twin processors"]},
+    "C15": {"rule": RIBBON_RULE, "assumptions": COMMON + ["required run length L = capacity + max(floor(fs*1ms)-1, 0) (the value the repository's unit tests pin at 10 kHz: 179 no press, 180 press)", "generated samples keep 2e-5 away from the in-range boundary"]},
+    "C16": {"rule": RIBBON_RULE + "; influence probes: twin controllers fed identical two-press histories except one sample raised by 0.25*boundary, per region {earlier press, pre-window, window, discarded tail, settling}", "assumptions": COMMON + ["mean tolerance 4*capacity*2^-24 + 2 ulp (sequential f32 summation); exact window membership is decided by the influence probes (bit-identical / strictly larger)"]},
+    "C17": {"rule": "union of the hostile generators of all six modules with every API call inside catch_unwind in a build with overflow-checks and debug-assertions on (crate and dependencies), an argument fuzzer over the documented ranges (any f32 bit pattern where the property allows it), and bounded-progress hang detection for the ADSR; Miri runs the reduced workloads (--tier small). distinct_nontrivial = distinct observation classes of all module monitors + (module, non-finite-argument count, sample-rate decade) of the argument fuzzer",
+            "assumptions": COMMON + ["hangs are decided on logical steps (C02 duration bound), wall-clock watchdogs only yield 'inconclusive'", "Miri findings count as violations; Miri cannot run the large sweeps"]},
+    "C20": {"rule": "all 2^32 f32 bit patterns through both conversions, all 256 u8 note arguments (allow/forbid/is_allowed/u8::from) and all 256 channel arguments (note-on heard on min(c,15) only), and twin envelopes configured with an out-of-range value vs. its bound driven by the same gate script (outputs compared bit for bit). distinct_nontrivial = 1024 f32 chunks (sign x exponent ranges) + differential classes",
+            "assumptions": COMMON + ["the bounds are the property's numbers 0.001, 20, 0, 1 (not the crate's constants)", "-0.0 is accepted as 0"]},
+})
+
 ENGINES = {}
 
 HOOK_COMMITS = ["6c4927e"]
@@ -44,6 +68,25 @@ E1 = "E1 native monitored harness"
 NOTE = "trusted: rustc/cargo, the harness' reference models (written from the property text), IEEE f32 on x86-64; only driven executions are decided"
 
 MANIFEST_TEXT = {
+    "C07": _t(E1, "runtime monitor with shadow scale over convert-edit-convert histories",
+              "Every conversion of every history is checked against the scale in force (shadow mask cross-checked with is_allowed after every edit); directed convert - forbid that pitch class - convert the same input in every octave.", NOTE, "DESIGN.md 4 (C07)"),
+    "C08": _t(E1, "exhaustive run-time sweep of scales x microvolt inputs against a nearest-note oracle",
+              "Each conversion runs on a fresh real quantizer and is judged by an independent f64 nearest-note oracle; quick covers all 4095 scales x boundary grid + stride, thorough all 4095 x 10,000,001 inputs (exhaustive).", NOTE, "DESIGN.md 4 (C08)"),
+    "C09": _t(E1, "history + executable model of the hysteresis window; differential against a fresh real instance outside it",
+              "Input sequences (ramps, boundary noise, jumps, scale edits) are judged by a window model written from the property; outside the window the result must equal a fresh real quantizer's; derived monotone/no-chatter checks.", NOTE, "DESIGN.md 4 (C09)"),
+    "C19": _t(E1, "runtime assertions on every returned Conversion record", "stairstep = note/12, stairstep + fraction reproduces the input within 2 ulp, fraction ranges on the chromatic and window paths; asserted on every conversion of every quantizer workload.", NOTE, "DESIGN.md 4 (C19)"),
+    "C13": _t(E1, "runtime monitor on the output trajectory: range, monotone approach, sign constancy, RC-envelope convergence",
+              "Every output of every history is checked against the span of the inputs, and every held input against monotone approach without crossing and convergence at least as fast as the RC law, with the filter's f32 resolution as tolerance; set_time changes anywhere incl. to <= 4/fs mid-glide.", NOTE, "DESIGN.md 4 (C13)"),
+    "C14": _t(E1, "runtime monitor: step-response points + pole estimation from observed outputs after every set_time sequence",
+              "Covered fraction at t/10 and t on clean steps over the (fs,t) plane; the pole in effect is estimated from the outputs after every set_time call and compared with the pole of the time that the dead-band rule says is in effect.", NOTE, "DESIGN.md 4 (C14)"),
+    "C15": _t(E1, "history + executable model (unbroken-run counter, edge latches) compared after every sample",
+              "finger_is_pressing and both edge getters are compared with a run-length reference after every sample over multi-press histories for 10 sample rates.", NOTE, "DESIGN.md 4 (C15)"),
+    "C16": _t(E1 + " (+E2 Miri in thorough)", "reference mean over the capture window + perturbation (influence) probes on twin instances",
+              "value() is compared with an f64 reference mean while pressing and must be bit-identical while not pressing; twin instances differing in one sample decide exact window membership (earlier press, pre-window, discarded tail: no influence; window: strictly increasing).", NOTE, "DESIGN.md 4 (C16)"),
+    "C17": _t(E1 + " + E2 Miri + E3 ASan", "catch_unwind around every call in an overflow-checked build under hostile workloads; Miri/ASan on reduced workloads; bounded-progress hang monitor",
+              "All module workloads plus an argument fuzzer over the documented ranges run with overflow checks and debug assertions live; a panic, a Miri diagnostic, an ASan report or an envelope exceeding its duration bound is a violation.", NOTE + "; Miri and ASan from the pre-installed nightly toolchain", "DESIGN.md 4 (C17), 5"),
+    "C20": _t(E1, "exhaustive run-time enumeration of all 2^32 f32 bit patterns and all u8 arguments; differential twin envelopes",
+              "Both float conversions are evaluated on every f32 bit pattern and judged against the property's bounds; every u8 note/channel argument is checked behaviourally; twin envelopes show an out-of-range value behaves exactly like its bound.", NOTE, "DESIGN.md 4 (C20)"),
     "C01": _t(E1, "runtime monitor (range/monotone/end-level/curve-fidelity assertions on hooked state) over directed + random gate/tick/set_input histories",
               "Every tick of every history is checked on the real Adsr: 0<=v<=1, monotone per phase, exact 1.0 / sustain / 0.0 at the phase ends, and |v - RC curve| <= 0.005 with the phase and counter position read through the hooks. Held on ~5*10^7 (quick) to ~10^10 (thorough) observed ticks covering every (phase x event) pair, start levels and T*fs from 0.1 to 3.84*10^6.",
               NOTE + "; hooks Adsr::verif_state/verif_phase_bits", "DESIGN.md 4 (C01)"),
